@@ -21,7 +21,7 @@ import re
 from . import common
 from .common import Check, impl_call, MachineryError
 from . import c01
-from .c01 import impl, strip_names, project_header, project_blocks, hl
+from .c01 import impl, strip_names, project_header, project_blocks
 
 TRACE_CFG = ("SPECIFICATION TraceSpec\nCONSTANTS DropsRest = FALSE DropsRawOnFail = FALSE\n"
              "POSTCONDITION TraceAccepted\nCHECK_DEADLOCK FALSE\n")
@@ -96,38 +96,37 @@ def validate(chk: Check, label, traces, infos, shards):
     seen = set()
     excluded = 0
     classes, by_bytes = {}, {}
-    results = sorted(results, key=lambda r: r.out)       # shards finish in any order; report deterministically
+    results = sorted(results, key=lambda r: (r.distinct, r.generated))       # shards finish in any order; report deterministically
     recs = []
     for r in results:
         chk.add_tlc(r, "PassThrough_Trace " + label)
         recs += [x for x in r.printed() if isinstance(x, dict)]
     recs.sort(key=lambda x: (x.get("tid", -1), x.get("fail", ""), common.skey(x)))
-    for _ in (0,):
-        for rec in recs:
-            if isinstance(rec, dict) and "cls" in rec:
-                c = rec["cls"]
-                k = "%s/%s%s%s" % (c["status"], "canonical" if c["canon"] else "NON-canonical",
-                                   "/trailing-bytes" if c["rest"] else "", "/blocks-missing" if c["partial"] else "")
-                classes[c["st"] + "/" + k] = classes.get(c["st"] + "/" + k, 0) + 1
-                by_bytes[k] = by_bytes.get(k, 0) + 1
-                continue
-            if not (isinstance(rec, dict) and "fail" in rec):
-                continue
-            key = (rec["tid"], rec["fail"])
-            if key in seen:
-                continue
-            seen.add(key)
-            m = _CAUSE.search(rec["fail"])
-            cause = m.group(1) if m else "none"
-            clause = _CAUSE.sub("", rec["fail"])
-            if cause == "f32-snan":
-                excluded += 1       # outside the claimed domain, see assumptions
-                continue
-            t = traces[rec["tid"]]
-            feats = {"kind": "passthrough", "source": label, "clause": clause, "cause": cause}
-            chk.violation("B2 %s: %s" % (label, rec["fail"]), feats,
-                          dict(infos[rec["tid"]], datagram=bytes(t[0]["d"]).hex(), mode=t[0]["mode"],
-                               trace=common._clip([{k: v for k, v in e.items() if k != "T"} for e in t], 80)))
+    for rec in recs:
+        if isinstance(rec, dict) and "cls" in rec:
+            c = rec["cls"]
+            k = "%s/%s%s%s" % (c["status"], "canonical" if c["canon"] else "NON-canonical",
+                               "/trailing-bytes" if c["rest"] else "", "/blocks-missing" if c["partial"] else "")
+            classes[c["st"] + "/" + k] = classes.get(c["st"] + "/" + k, 0) + 1
+            by_bytes[k] = by_bytes.get(k, 0) + 1
+            continue
+        if not (isinstance(rec, dict) and "fail" in rec):
+            continue
+        key = (rec["tid"], rec["fail"])
+        if key in seen:
+            continue
+        seen.add(key)
+        m = _CAUSE.search(rec["fail"])
+        cause = m.group(1) if m else "none"
+        clause = _CAUSE.sub("", rec["fail"])
+        if cause == "f32-snan":
+            excluded += 1       # outside the claimed domain, see assumptions
+            continue
+        t = traces[rec["tid"]]
+        feats = {"kind": "passthrough", "source": label, "clause": clause, "cause": cause}
+        chk.violation("B2 %s: %s" % (label, rec["fail"]), feats,
+                      dict(infos[rec["tid"]], datagram=bytes(t[0]["d"]).hex(), mode=t[0]["mode"],
+                           trace=common._clip([{k: v for k, v in e.items() if k != "T"} for e in t], 80)))
     for ti, j, ev in rej:
         chk.violation("B2 %s: trace not consumable by PassThrough_Trace" % label, {"kind": "passthrough-reject", "source": label},
                       dict(infos[ti], event=common._clip({k: v for k, v in ev.items() if k != "T"}, 80)))
